@@ -675,6 +675,12 @@ func exec(t *testing.T, x any, s hx.Sched) *hx.Outcome {
 		if w.Reqs[i].FailW {
 			o.Fault("client_write_error", 1)
 		}
+		if w.Reqs[i].Slow {
+			o.Fault("slow_client_parks_in_body_writes", 1)
+		}
+		if w.Handlers[w.Reqs[i].H].File > 0 {
+			o.Probe("file_responses", 1)
+		}
 		inflight++
 		a, b := conc[i], solo[i]
 		if a.String() == b.String() {
